@@ -4,6 +4,9 @@ import ast
 
 from ..core import (AnalysisError, body_nodes, closure, depends_on, dotted, in_loop, is_self_attr,
                     key_text, local_defs, names_in, params, parent, stmts_of, unparse)
+from ..dtable import UNKNOWN, run_paths, to_ast
+from ..normal import _dc, inline_temps
+from ..pattern import find, guards_of, pmatch
 from ..flow import check_errflow
 from ..linform import C, NotPoly, Poly, eval_poly
 
@@ -231,47 +234,94 @@ def check_run_evolution_flow(prog, rep):
 # Suzuki-Trotter tables
 
 
-def _order_branches(f):
-    """[(order constant, body)] from the if/elif chain on `order`."""
-    out = []
-    for st in f.body:
-        cur = st
-        while isinstance(cur, ast.If):
-            t = cur.test
-            if isinstance(t, ast.Compare) and isinstance(t.left, ast.Name) and \
-                    t.left.id == 'order' and len(t.ops) == 1 and isinstance(t.ops[0], ast.Eq) \
-                    and isinstance(t.comparators[0], ast.Constant):
-                out.append((t.comparators[0].value, cur.body))
-            if len(cur.orelse) == 1 and isinstance(cur.orelse[0], ast.If):
-                cur = cur.orelse[0]
+def _order_values(f):
+    """constants the parameter `order` is compared with"""
+    vals = []
+    for n in ast.walk(f):
+        if isinstance(n, ast.Compare) and len(n.ops) == 1:
+            a, b = n.left, n.comparators[0]
+            for x, y in ((a, b), (b, a)):
+                if isinstance(x, ast.Name) and x.id == 'order' and isinstance(y, ast.Constant):
+                    if y.value not in vals:
+                        vals.append(y.value)
+                if isinstance(x, ast.Name) and x.id == 'order' and isinstance(
+                        y, (ast.Tuple, ast.List)):
+                    for e in y.elts:
+                        if isinstance(e, ast.Constant) and e.value not in vals:
+                            vals.append(e.value)
+    return vals
+
+
+def _body(f):
+    return [s for s in f.body if not (isinstance(s, ast.Expr) and isinstance(s.value, ast.Constant))]
+
+
+def _single_return(f, order, what, substitute=False):
+    """the one path of `f` for this value of `order` (decision table over the order); the
+    degenerate N_steps == 0 early exit is not the path of interest"""
+    paths = run_paths(_body(f), {'N_steps == 0': False}, {'order': order}, substitute=substitute)
+    rets = [p for p in paths if p.outcome == 'return']
+    if len(paths) != 1 or len(rets) != 1:
+        raise AnalysisError('%s: order %r does not select exactly one returning path (%s)' %
+                            (what, order, [p.outcome for p in paths]))
+    return rets[0]
+
+
+def _poly_of(expr, env, memo, stack=()):
+    """Poly of an expression; local names are resolved through the path environment, numeric
+    literals bound to a name and non-polynomial definitions stay opaque symbols (exact
+    cancellation is what is decided, not floating-point values)"""
+    class R(dict):
+        def __contains__(self, k):
+            return True
+
+        def __getitem__(self, nm):
+            if nm in memo:
+                return memo[nm]
+            v = env.get(nm, UNKNOWN)
+            if v is UNKNOWN or nm in stack:
+                r = Poly.sym(nm)
+            elif not isinstance(v, ast.AST):
+                r = Poly.sym(nm)            # a named literal: opaque
             else:
-                break
-    return out
+                try:
+                    r = _poly_of(v, env, memo, stack + (nm, ))
+                except NotPoly:
+                    r = Poly.sym(nm)
+            memo[nm] = r
+            return r
+
+    return eval_poly(expr, R())
 
 
-def _time_steps(body):
-    env = {}
-    for st in body:
-        if isinstance(st, ast.Assign) and len(st.targets) == 1 and isinstance(
-                st.targets[0], ast.Name):
-            nm = st.targets[0].id
-            if isinstance(st.value, ast.Constant) or (
-                    isinstance(st.value, ast.UnaryOp) and isinstance(st.value.operand,
-                                                                      ast.Constant)):
-                env[nm] = Poly.sym(nm)  # opaque literal: exact cancellation
-                continue
-            try:
-                env[nm] = eval_poly(st.value, env)
-            except NotPoly:
-                env[nm] = Poly.sym(nm)
-        elif isinstance(st, ast.Return):
-            if not isinstance(st.value, ast.List):
-                raise AnalysisError('suzuki_trotter_time_steps: return is not a list literal')
-            return [eval_poly(e, env) for e in st.value.elts]
-        else:
-            raise AnalysisError('suzuki_trotter_time_steps: unexpected statement %s' %
-                                key_text(st))
-    raise AnalysisError('suzuki_trotter_time_steps: branch without return')
+def _time_steps(f, order):
+    p = _single_return(f, order, 'suzuki_trotter_time_steps')
+    val = p.value
+    if isinstance(val, ast.Name) and isinstance(p.env.get(val.id), ast.AST):
+        val = p.env[val.id]
+    if not isinstance(val, (ast.List, ast.Tuple)):
+        raise AnalysisError('suzuki_trotter_time_steps: return is not a list literal')
+    memo = {}
+    return [_poly_of(e, p.env, memo) for e in val.elts]
+
+
+def _resolve_lists(expr, env, depth=0):
+    """the schedule expression with local names replaced by what the path bound them to"""
+    if depth > 20:
+        raise AnalysisError('schedule expression too deep')
+
+    class S(ast.NodeTransformer):
+        def visit_Name(self, node):
+            if isinstance(node.ctx, ast.Load) and node.id in env and node.id != 'N_steps':
+                v = env[node.id]
+                if isinstance(v, ast.AST):
+                    return _resolve_lists(v, env, depth + 1)
+                c = to_ast(v)
+                if c is not None:
+                    return c
+            return node
+
+    return ast.fix_missing_locations(S().visit(_dc(expr)))
 
 
 def _list_counts(node, env, lists):
@@ -326,41 +376,17 @@ def check_trotter(prog, rep):
     rep.unit(m)
     fts = m.func('TEBDEngine.suzuki_trotter_time_steps')
     fdec = m.func('TEBDEngine.suzuki_trotter_decomposition')
-    steps = {o: _time_steps(b) for o, b in _order_branches(fts)}
-    # parity names
-    env0 = {}
-    for st in fdec.body:
-        if isinstance(st, ast.Assign) and isinstance(st.targets[0], ast.Tuple) and isinstance(
-                st.value, ast.Tuple):
-            for t, v in zip(st.targets[0].elts, st.value.elts):
-                if isinstance(t, ast.Name) and isinstance(v, ast.Constant):
-                    env0[t.id] = v.value
-    if env0.get('even') != 0 or env0.get('odd') != 1:
-        # evolve_step starts at bond int(odd) % 2
-        rep.violation('TROTTER-sum', m, 'TEBDEngine.suzuki_trotter_decomposition', 'parity-names',
-                      '`even, odd` are not (0, 1): evolve_step would update the wrong bond family',
-                      fdec.lineno)
+    steps = {o: _time_steps(fts, o) for o in _order_values(fts)}
     decs = {}
-    for o, body in _order_branches(fdec):
-        env = dict(env0)
-        lists = {}
-        ret = None
-        for st in body:
-            if isinstance(st, ast.Assign) and len(st.targets) == 1 and isinstance(
-                    st.targets[0], ast.Name):
-                nm = st.targets[0].id
-                if isinstance(st.value, ast.Tuple):
-                    env[nm] = _entry(st.value, env)
-                else:
-                    lists[nm] = _list_counts(st.value, env, lists)
-            elif isinstance(st, ast.Return):
-                ret = _list_counts(st.value, env, lists)
-            else:
-                raise AnalysisError('suzuki_trotter_decomposition: unexpected statement %s' %
-                                    key_text(st))
-        if ret is None:
-            raise AnalysisError('suzuki_trotter_decomposition: order %r has no return' % (o, ))
-        decs[o] = ret
+    for o in _order_values(fdec):
+        p = _single_return(fdec, o, 'suzuki_trotter_decomposition', substitute=True)
+        env0 = {k: v for k, v in p.env.items() if not isinstance(v, ast.AST)}
+        if env0.get('even') != 0 or env0.get('odd') != 1:
+            # evolve_step starts at bond int(odd) % 2
+            rep.violation('TROTTER-sum', m, 'TEBDEngine.suzuki_trotter_decomposition',
+                          'parity-names', '`even, odd` are not (0, 1): evolve_step would update '
+                          'the wrong bond family', fdec.lineno)
+        decs[o] = _list_counts(_resolve_lists(p.value, p.env), {}, {})
     if set(steps) != set(decs):
         rep.violation('TROTTER-sum', m, 'TEBDEngine.suzuki_trotter_decomposition', 'orders-differ',
                       'orders with time steps %s differ from orders with a schedule %s' %
@@ -402,9 +428,10 @@ def check_trotter(prog, rep):
                             'orders': sorted(map(str, steps))}
     # orders accepted by the two tables also raise for unknown orders
     for f in (fts, fdec):
-        last = f.body[-1]
         rep.instance('TROTTER-unknown-order', {'function': f.name})
-        if not isinstance(last, ast.Raise):
+        paths = run_paths(_body(f), {'N_steps == 0': False}, {'order': '<no such order>'},
+                          substitute=False)
+        if not paths or any(p.outcome != 'raise' for p in paths):
             rep.violation('TROTTER-unknown-order', m, 'TEBDEngine.' + f.name, 'no-raise',
                           'unknown order falls through without ValueError', f.lineno)
     return obligations, discharged
